@@ -4,5 +4,6 @@ ASSUME LoopRefinesSpec
 ASSUME Laws
 ASSUME JoinLaws
 ASSUME TrimLaws
-ASSUME PrintT(<<"cases", Cardinality(CasesVec) + Cardinality(CasesScalar) + Cardinality(CasesStr) + Cardinality(CasesChr) + Cardinality(CasesMisc)>>)
+ASSUME InputRangeKept
+ASSUME PrintT(<<"cases", Cardinality(CasesVec) + Cardinality(CasesScalar) + Cardinality(CasesStr) + Cardinality(CasesChr) + Cardinality(CasesMisc) + Cardinality(CasesRange)>>)
 =============================================================================
